@@ -112,6 +112,16 @@ def run_scripts(res, rng, n):
             steps.append((t, 1, 0, 0, rng.choice([4321, 250000]), cfg, rng.randrange(1, 60000)))
             t += NS
         scripts.append((start, cfg, steps))
+    # outages of hours: the age of the last good answer at 2^32 microseconds (71 min 35 s), at 2^32 milliseconds
+    # and around them - no outage is ever young again
+    for _ in range(max(2, n // 30)):
+        start = rng.randrange(10, 1000) * NS
+        t0 = start + NS
+        steps = [(t0, 1, 1000, 0, -1, 7, rng.randrange(1, 60000))]
+        for off in sorted(rng.sample([4294 * NS + 9 * 10 ** 8, 4295 * NS + 2 * 10 ** 8, 4297 * NS, 4299 * NS + 9 * 10 ** 8, 4300 * NS + 10 ** 8,
+                                      8590 * NS + 5 * 10 ** 8, 8594 * NS, 4294967 * NS + 5 * 10 ** 8, 4294970 * NS, 3600 * NS, 86400 * NS], 6)):
+            steps.append((t0 + off, rng.choice([0, 2, 3]), 0, rng.choice([0, 1000]), -1, 7, 1))
+        scripts.append((start, -1, steps))
     # a chronyd that holds its socket but stops replying (each silent query costs three seconds of real time,
     # hence few of these): within the grace period of the last good answer the outcome is still the milder one
     for _ in range(2 if n < 500 else 8):
